@@ -211,13 +211,33 @@ func RunWorker(o Opts, widx, nw int, resultPath string) {
 		min, minFail, attempts := Minimise(e, failing, out.Fail, 3000, 90*time.Second)
 		arm()
 		final := SafeRun(e, min, true)
+		note := fmt.Sprintf("minimised in %d attempts", attempts)
 		if final.Fail == nil || final.Fail.Oracle != out.Fail.Oracle {
-			Fatal("minimised %s scenario does not reproduce in-process (flaky harness?): first failure %s: %s\nminimised: %s\noriginal: %s", o.ID, out.Fail.Oracle, out.Fail.Detail, scenarioJSON(min), scenarioJSON(failing))
+			// The minimised scenario does not fail again. Fall back to the scenario as generated;
+			// if that does not fail again either, the failure depends on something the simulator
+			// does not control (real-time scheduling of free-running children): inconclusive,
+			// counted and shown, never reported as a violation.
+			min, note = failing, "not minimised (the minimised scenario did not fail again)"
+			final = Outcome{}
+			for try := 0; try < 3; try++ {
+				arm()
+				f := SafeRun(e, failing, true)
+				if f.Fail != nil && f.Fail.Oracle == out.Fail.Oracle {
+					final = f
+					break
+				}
+			}
+			if final.Fail == nil {
+				res.Probes["inconclusive:failure_did_not_reproduce"]++
+				fmt.Printf("NOTE: a failure of %s did not reproduce when its scenario was run again (%s: %s); inconclusive, not reported. scenario: %s\n",
+					o.ID, out.Fail.Oracle, firstLines(out.Fail.Detail, 2), scenarioJSON(failing))
+				continue
+			}
 		}
 		_ = minFail
 		rf := &ReplayFile{Property: o.ID, Seed: o.Seed, Index: i, Tier: o.Tier, Oracle: final.Fail.Oracle,
 			Detail: final.Fail.Detail, LogHash: hashOf(final), Scenario: scenarioJSON(min), Log: tail(final.Log, 200),
-			Note: fmt.Sprintf("minimised in %d attempts", attempts)}
+			Note: note}
 		path := writeReplay(filepath.Join(o.VerifDir, "replays", o.ID), rf)
 		res.Violations = append(res.Violations, path)
 		res.ViolOracles = append(res.ViolOracles, final.Fail.Oracle+": "+final.Fail.Detail)
@@ -444,20 +464,41 @@ func RunBatch(o Opts) int {
 
 	// 3. Every violation must reproduce from its replay file in a fresh process.
 	confirmed := []string{}
+	confirmedDetail := []string{}
+	unreproducible := 0
 	for i, v := range violations {
-		cmd := exec.Command(o.Self, "replay", "--verif", o.VerifDir, v)
-		outb, err := cmd.CombinedOutput()
+		ok := false
+		var lastOut []byte
 		code := 0
-		if ee, ok := err.(*exec.ExitError); ok {
-			code = ee.ExitCode()
-		} else if err != nil {
-			Fatal("replay %s: %v", v, err)
+		for try := 0; try < 3 && !ok; try++ {
+			cmd := exec.Command(o.Self, "replay", "--verif", o.VerifDir, v)
+			outb, err := cmd.CombinedOutput()
+			lastOut = outb
+			code = 0
+			if ee, isExit := err.(*exec.ExitError); isExit {
+				code = ee.ExitCode()
+			} else if err != nil {
+				Fatal("replay %s: %v", v, err)
+			}
+			if code == exitHarness {
+				fmt.Fprintf(os.Stderr, "%s", outb)
+				Fatal("replaying %s ended with harness trouble", v)
+			}
+			ok = code == 1 && bytes.Contains(outb, []byte("VIOLATION property="+o.ID))
 		}
-		if code != 1 || !bytes.Contains(outb, []byte("VIOLATION property="+o.ID)) {
-			fmt.Fprintf(os.Stderr, "%s", outb)
-			Fatal("violation %s (%s) did not reproduce from its replay file in a fresh process (exit %d): harness trouble, not reported", v, violDetail[i], code)
+		if !ok {
+			// Not reproducible from its replay file in a fresh process: whatever it was, it is not
+			// a function of the scenario; never reported as a violation.
+			unreproducible++
+			fmt.Printf("NOTE: %s (%s) did not reproduce from its replay file in a fresh process (3 attempts, last exit %d); inconclusive, not reported\n%s\n", v, firstLines(violDetail[i], 2), code, firstLines(string(lastOut), 6))
+			continue
 		}
 		confirmed = append(confirmed, v)
+		confirmedDetail = append(confirmedDetail, violDetail[i])
+	}
+	violDetail = confirmedDetail
+	if unreproducible > 0 {
+		total.Probes["inconclusive:violation_did_not_reproduce_in_fresh_process"] += unreproducible
 	}
 
 	// 4. Evidence.
